@@ -40,8 +40,11 @@ type c35Case struct {
 	Self  int         `json:"self"`  // part A: name index of "self"
 	K     int         `json:"k"`     // part A
 	Table []c35Member `json:"table"` // part B: later entries with the same name are dropped
-	Relay int         `json:"relay"` // part B: relay factor of the query
+	Relay int         `json:"relay"` // part B: relay factor of the query (0..255: the wire field is one byte)
 	Ack   bool        `json:"ack"`   // part B: query requests an ack
+	// Origin: form of the origin address the query carries: 0 IPv4 in 4 bytes,
+	// 1 the same IPv4 address in 16 bytes, 2 an IPv6 address
+	Origin int `json:"origin,omitempty"`
 }
 
 var c35Status = []serf.MemberStatus{serf.StatusAlive, serf.StatusLeaving, serf.StatusFailed, serf.StatusLeft, serf.StatusNone}
@@ -62,13 +65,14 @@ func genC35(t *rapid.T) c35Case {
 		c.List = append(c.List, gm(8, 4))
 	}
 	c.Self = rapid.IntRange(0, 7).Draw(t, "self")
-	c.K = rapid.OneOf(rapid.IntRange(0, 12), rapid.IntRange(1, 4)).Draw(t, "k")
+	c.K = rapid.OneOf(rapid.IntRange(0, 12), rapid.IntRange(1, 4), rapid.SampledFrom([]int{254, 255, 256})).Draw(t, "k")
 	nt := rapid.OneOf(rapid.IntRange(0, 9), rapid.IntRange(4, 9)).Draw(t, "nt")
 	for i := 0; i < nt; i++ {
 		c.Table = append(c.Table, gm(9, 3))
 	}
-	c.Relay = rapid.OneOf(rapid.IntRange(0, 10), rapid.IntRange(1, 4), rapid.IntRange(1, 3)).Draw(t, "relay")
+	c.Relay = rapid.OneOf(rapid.IntRange(0, 10), rapid.IntRange(1, 4), rapid.IntRange(1, 3), rapid.SampledFrom([]int{255, 254, 128, 127})).Draw(t, "relay")
 	c.Ack = rapid.Bool().Draw(t, "ack")
+	c.Origin = rapid.SampledFrom([]int{0, 0, 1, 2}).Draw(t, "origin")
 	return c
 }
 
@@ -188,12 +192,22 @@ func bodyC35(c c35Case, x *vkit.Ctx) {
 		return
 	}
 
+	relay := min(max(c.Relay, 0), 255)
 	fq := foreignQuery(5, 77, "c35-q", []byte("?"))
-	fq.RelayFactor = uint8(c.Relay)
+	fq.RelayFactor = uint8(relay)
 	if c.Ack {
 		fq.Flags |= serf.VerifQueryFlagAck
 	}
-	origin := (&net.UDPAddr{IP: net.ParseIP(originIP), Port: originPort}).String()
+	origin := originIP + fmt.Sprint(":", originPort) // written out, not derived through the code's formatting
+	switch c.Origin {
+	case 1:
+		fq.Addr = net.ParseIP(originIP).To16()
+		x.Label("B:origin-ipv4-in-16-bytes")
+	case 2:
+		fq.Addr = net.ParseIP("fd00::9:8:7")
+		origin = fmt.Sprint("[fd00::9:8:7]:", originPort)
+		x.Label("B:origin-ipv6")
+	}
 	nw.Packets()
 	n.Delegate.NotifyMsg(mustEncode(serf.VerifMessageQueryType, fq))
 	ackPk := node.UserMsgs(nw.Packets())
@@ -271,12 +285,12 @@ func bodyC35(c c35Case, x *vkit.Ctx) {
 			x.Violationf("direct-reply-count", "%s: %d direct reply packets to the origin, want exactly 1", kind, direct)
 			return false
 		}
-		if len(relayTo) > c.Relay {
-			x.Violationf("more-than-k-relays", "%s: %d relay packets, relay factor %d", kind, len(relayTo), c.Relay)
+		if len(relayTo) > relay {
+			x.Violationf("more-than-k-relays", "%s: %d relay packets, relay factor %d", kind, len(relayTo), relay)
 			return false
 		}
-		if known < c.Relay+1 && len(relayTo) > 0 {
-			x.Violationf("relay-in-tiny-cluster", "%s: %d relay packets although only %d members are known (relay factor %d)", kind, len(relayTo), known, c.Relay)
+		if known < relay+1 && len(relayTo) > 0 {
+			x.Violationf("relay-in-tiny-cluster", "%s: %d relay packets although only %d members are known (relay factor %d)", kind, len(relayTo), known, relay)
 			return false
 		}
 		x.Labelf("B:%s-relays=%d", kind, min(len(relayTo), 4))
@@ -298,16 +312,18 @@ func bodyC35(c c35Case, x *vkit.Ctx) {
 		return
 	}
 	switch {
-	case c.Relay == 0:
+	case relay == 0:
 		x.Label("B:relay-factor-0")
-	case known < c.Relay+1:
+	case relay >= 254 && nEligible > 0:
+		x.Label("B:relay-factor-at-byte-limit")
+	case known < relay+1:
 		x.Label("B:too-few-members")
 	case nEligible == 0:
 		x.Label("B:no-eligible-member")
 	default:
 		x.Label("B:relay-possible")
 	}
-	ntB := nIneligible > 0 && c.Relay > 0 && c.Relay < nEligible && known >= c.Relay+1
+	ntB := nIneligible > 0 && relay > 0 && relay < nEligible && known >= relay+1
 	if ntB {
 		x.Label("B:nontrivial")
 	}
